@@ -1,13 +1,13 @@
 """Elided lists of section / lot numbers: abstract model, expansion, renderings."""
 from hypothesis import strategies as st
 
-SEC_LEAD = ["Sec", "Sec.", "Section", "Sect.", "§", "Secs", "Sections", "Secs.", "Sects."]
-SEC_REPEAT = ["Sec", "Sec.", "Section", "Sect.", "§", "Secs", "Sections"]
-LOT_LEAD = ["Lot", "Lots", "L", "L.", "Lt", "Lt."]
-LOT_REPEAT = ["Lot", "Lots", "L", "L.", "Lt", "Lt."]
+SEC_LEAD = ["Sec", "Sec.", "Section", "Sect.", "§", "Secs", "Sections", "Secs.", "Sects.", "SECTION", "SECTIONS", "SEC.", "sec", "section"]
+SEC_REPEAT = ["Sec", "Sec.", "Section", "Sect.", "§", "Secs", "Sections", "SECTION", "sec."]
+LOT_LEAD = ["Lot", "Lots", "L", "L.", "Lt", "Lt.", "LOT", "LOTS", "lots"]
+LOT_REPEAT = ["Lot", "Lots", "L", "L.", "Lt", "Lt.", "LOT", "lots"]
 
-THROUGH = ["-", " - ", "–", " — ", " through ", " thru ", " thru. ", " to ", "—"]
-CONNECT = [", ", " and ", " & ", ", and ", "; ", ",", " and\n"]
+THROUGH = ["-", " - ", "–", " — ", " through ", " thru ", " thru. ", " to ", "—", " THROUGH ", " Thru ", " TO ", " THRU. ", " Through "]
+CONNECT = [", ", " and ", " & ", ", and ", "; ", ",", " and\n", " AND ", ", And "]
 
 
 def expand(items):
